@@ -48,7 +48,11 @@ def main():
     try:
         for c in checks:
             t0 = time.time()
+            evp = ROOT / "evidence" / f"{c}.json"
+            saved = evp.read_bytes() if evp.exists() else None   # evidence must describe the unchanged tree: keep it
             r = subprocess.run([str(ROOT / "check"), c, "--tier", "quick"], capture_output=True, text=True, env=env, cwd=str(ROOT))
+            if saved is not None:
+                evp.write_bytes(saved)
             viol = [l for l in r.stdout.splitlines() if l.startswith("VIOLATION")]
             mechs = [l.strip()[:220] for l in r.stdout.splitlines() if l.strip().startswith("mechanism=")]
             results[c] = {"exit": r.returncode, "violation": bool(viol), "mechanisms": mechs[:4], "wall_s": round(time.time() - t0, 1)}
